@@ -1,5 +1,70 @@
+import Casket.Model.Dispenser
+import Casket.Spec.Dispenser
 import Driver.Proto
-/- Streams of C11 (stub: not built yet). -/
+/-
+Streams of C11.
+  c11.disp   tokens  ops     tokens = comma list file:line:texthex; ops = string over n a l b B r 2 v i f N
+             out = per-op results joined by ";" then "|" Val ":" Line ":" Nesting
+  c11.setup  directive confighex    out = total | PANIC:… | TIMEOUT:… | DISAGREE:…   (search; the model's answer is "total")
+-/
 namespace Driver.C11
-def streams : List Driver.Stream := []
+open Casket.Lexer Casket.Dispenser
+
+def parseTok (s : String) : Option Token :=
+  match s.splitOn ":" with
+  | [f, l, h] => do pure ⟨f, ← l.toNat?, ← Driver.unhex h⟩
+  | _ => none
+
+def parseToks (s : String) : Option (List Token) :=
+  if s = "" then some [] else (s.splitOn ",").mapM parseTok
+
+def b01 (b : Bool) : String := if b then "1" else "0"
+
+def showInt (i : Int) : String := if i < 0 then "-" ++ toString i.natAbs else toString i.toNat
+
+/-- one method call: printed result and new state -/
+def step (d : Disp) (op : Char) : Option String × Disp :=
+  match op with
+  | 'n' => let r := d.next; (some (b01 r.1), r.2)
+  | 'a' => let r := d.nextArg; (some (b01 r.1), r.2)
+  | 'l' => let r := d.nextLine; (some (b01 r.1), r.2)
+  | 'b' => let r := d.nextBlock; (some (b01 r.1), r.2)
+  | 'B' => let r := d.nextBlockNesting 1; (some (b01 r.1), r.2)
+  | 'r' => let r := d.remainingArgs; (some ("[" ++ ",".intercalate (r.1.map Driver.hex) ++ "]"), r.2)
+  | '2' =>
+    let r := Disp.args 2 d []
+    let x := match r.2.1 with | a :: _ => Driver.hex a | [] => Driver.hex "<unset>".toUTF8.toList
+    let y := match r.2.1 with | _ :: b :: _ => Driver.hex b | _ => Driver.hex "<unset>".toUTF8.toList
+    (some (b01 r.1 ++ "[" ++ x ++ "," ++ y ++ "]"), r.2.2)
+  | 'v' => (some (Driver.hex d.val), d)
+  | 'i' => (some (toString d.line), d)
+  | 'f' => (some d.file, d)
+  | 'N' => (some (showInt d.nesting), d)
+  | _ => (none, d)
+
+def run (d : Disp) (ops : List Char) : List String × Disp :=
+  ops.foldl (fun (acc : List String × Disp) op =>
+    let r := step acc.2 op
+    (match r.1 with | some s => acc.1 ++ [s] | none => acc.1, r.2)) ([], d)
+
+def dispModel : List String → String
+  | [ts, ops] =>
+    match parseToks ts with
+    | none => "bad-case"
+    | some toks =>
+      let (outs, d) := run (Disp.new "Testfile" toks) ops.toList
+      ";".intercalate outs ++ "|" ++ Driver.hex d.val ++ ":" ++ toString d.line ++ ":" ++ showInt d.nesting
+  | _ => "bad-case"
+
+/-- the property on the implementation's answer: no call panicked (PANIC is what the harness prints for one) -/
+def dispJudge (_ : List String) (out : String) : String :=
+  if out.startsWith "PANIC" then "bad:panic:a Dispenser method panicked" else "ok"
+
+def setupJudge (_ : List String) (out : String) : String := Casket.DispenserSpec.setupVerdict out
+
+def streams : List Driver.Stream := [
+  { name := "c11.disp", model := dispModel, judge := dispJudge },
+  { name := "c11.setup", model := fun _ => "total", judge := setupJudge }
+]
+
 end Driver.C11
